@@ -143,4 +143,9 @@ def gen_props(rng: Any, n: int, distinct_prio: bool, compat_bias: float = 0.5) -
             if blo is not None and bhi is not None and blo > bhi:
                 blo, bhi = bhi, blo
         props.append({"src": f"a{i}", "prio": prios[i], "pref": pref, "lo": blo, "hi": bhi})
+    if n >= 2 and rng.random() < 0.15:
+        # two different actors (different priorities) that use the same source id: still two live proposals
+        i, j = rng.sample(range(n), 2)
+        if props[i]["prio"] != props[j]["prio"]:
+            props[j]["src"] = props[i]["src"]
     return props
